@@ -397,13 +397,73 @@ func ruleReaderRecursion(r *Run) {
 // ---------------------------------------------------------------------------
 
 func ruleInitBody(r *Run) {
-	p := r.P
 	open := r.mustFunc(pkgDoc, "openFromZipReader")
 	if open == nil {
 		return
 	}
+	initFieldOnOpen(r, open, "Body")
+	// The two constructors must agree: every pointer/map field of Document that New() leaves non-nil
+	// (the rest of the API dereferences those without a test) is non-nil after a successful Open too.
+	p := r.P
+	newFn := p.Func(pkgDoc, "New")
+	if newFn == nil {
+		r.Unresolved("document.New")
+		return
+	}
+	set := map[string]bool{}
+	fs := []*ssa.Function{newFn}
+	for g := range p.staticReach(newFn) {
+		fs = append(fs, g)
+	}
+	for _, g := range fs {
+		allInstrs(g, func(in ssa.Instruction) {
+			st, ok := in.(*ssa.Store)
+			if !ok || isNilConst(st.Val) {
+				return
+			}
+			fv, _ := fieldOfAddr(st.Addr)
+			if fv == nil {
+				return
+			}
+			if o := fieldOwner(p, fv); o == nil || o.Obj().Name() != "Document" || o.Obj().Pkg().Path() != pkgDoc {
+				return
+			}
+			switch fv.Type().Underlying().(type) {
+			case *types.Pointer, *types.Map:
+				set[fv.Name()] = true
+			}
+		})
+	}
+	// composite literal &Document{F: v}: stores into a fresh Alloc are Stores too (covered above)
+	var names []string
+	for n := range set {
+		if n != "Body" {
+			names = append(names, n)
+		}
+	}
+	sort.Strings(names)
+	for _, n := range names {
+		initFieldOnOpen(r, open, n)
+	}
+	r.Min("document_fields_initialised_by_New", len(names)+1, 4)
+}
+
+func initFieldOnOpen(r *Run, open *ssa.Function, field string) {
+	p := r.P
 	// must-store summary (least fixpoint from below over the reader functions + open)
 	cands := append([]*ssa.Function{}, buildReaderModel(p).Funcs...)
+	if field != "Body" {
+		// the package-level parts are read by plain functions, not token readers: everything open reaches
+		inC := map[*ssa.Function]bool{}
+		for _, f := range cands {
+			inC[f] = true
+		}
+		for _, g := range sortedFuncs(p.staticReach(open)) {
+			if !inC[g] && g.Parent() == nil && g.Pkg != nil && g.Pkg.Pkg.Path() == pkgDoc && g != open {
+				cands = append(cands, g)
+			}
+		}
+	}
 	must := map[*ssa.Function]bool{}
 	storesBody := func(in ssa.Instruction) bool {
 		st, ok := in.(*ssa.Store)
@@ -411,7 +471,7 @@ func ruleInitBody(r *Run) {
 			return false
 		}
 		fv, _ := fieldOfAddr(st.Addr)
-		if !fieldIs(p, fv, pkgDoc, "Document", "Body") {
+		if !fieldIs(p, fv, pkgDoc, "Document", field) {
 			return false
 		}
 		return !isNilConst(st.Val)
@@ -443,7 +503,7 @@ func ruleInitBody(r *Run) {
 			})
 			// a path that has passed `d.Body != nil` is as good as one that stored it
 			for _, t := range fieldNilTestsAny(f) {
-				if fieldIs(p, t.Field, pkgDoc, "Document", "Body") {
+				if fieldIs(p, t.Field, pkgDoc, "Document", field) {
 					for b := range t.NonNil {
 						cut[b] = true
 					}
@@ -500,12 +560,12 @@ func ruleInitBody(r *Run) {
 			}
 		}
 	}
-	detail := "every successful return of openFromZipReader is preceded by a store of a non-nil Body"
+	detail := "every successful return of openFromZipReader is preceded by a store of a non-nil " + field
 	pos := open.Pos()
 	if !ok {
-		detail = "openFromZipReader can return a document with a nil error although Body was never set"
+		detail = "openFromZipReader can return a document with a nil error although " + field + " was never set (New() sets it, and the API dereferences it without a test)"
 		if culprit != nil {
-			detail += fmt.Sprintf(": %s has a nil-error return path that does not initialise Document.Body (then dereferenced)", shortName(culprit))
+			detail += fmt.Sprintf(": %s has a nil-error return path that does not initialise Document."+field+" (then dereferenced)", shortName(culprit))
 			pos = culprit.Pos()
 		}
 	}
@@ -513,7 +573,11 @@ func ruleInitBody(r *Run) {
 	if culprit != nil && !ok {
 		name = shortName(culprit)
 	}
-	r.Check("init-body", name, pos, ok, detail)
+	if field == "Body" {
+		r.Check("init-body", name, pos, ok, detail)
+	} else {
+		r.Check("init-field", field, pos, ok, detail)
+	}
 }
 
 // ---------------------------------------------------------------------------
